@@ -1,18 +1,11 @@
-\* exhaustive (quick): all trees of <= 4 nodes; one composite class + components; grids none / cartesian / axial; 2 cells
+\* exhaustive (quick): all trees of <= 4 nodes; one composite class + components; grids none / cartesian / axial; 2 cells.
+\* AllTheorems = RoundTrip, FileIsSorted, ResaveSame, CanonIdem, ClauseWise, FileConsistent, AncestorsAreParents, RowsAccounted, IndexBijection, GridDedup
+\* evaluated with shared intermediate values (the thorough config lists them one by one)
 CONSTANTS MaxNodes = 4  CompTypes = {"A"}  Grids = {"none", "g1", "ax"}  NCells = 2  MaxLevel = 9
 INIT Init
 NEXT Next
 CONSTRAINT Bound
 CONSTRAINT Prune
 INVARIANT TypeOK
-INVARIANT RoundTrip
-INVARIANT FileIsSorted
-INVARIANT ResaveSame
-INVARIANT CanonIdem
-INVARIANT ClauseWise
-INVARIANT FileConsistent
-INVARIANT IndexBijection
-INVARIANT GridDedup
-INVARIANT AncestorsAreParents
-INVARIANT RowsAccounted
+INVARIANT AllTheorems
 CHECK_DEADLOCK FALSE
